@@ -1,5 +1,5 @@
 """property id -> clauses (rule functions) + the honest remainder.  Single source for MANIFEST.json."""
-from . import r2, r3, r6
+from . import r2, r3, r6, r9
 
 
 def fam(*names):
@@ -94,6 +94,20 @@ PROPS = {
         "level_text": "Decides: the negative-shift panic precedes everything else in biguint_shl/biguint_shr in release builds (comparison against T::zero() on the shift "
         "amount); every shift/bit operator form is a verified forwarder or a reviewed implementation.",
         "technique": T_R3 + "; " + T_R2,
+    },
+    "C04": {
+        "clauses": [r9.check_eq_ord_hash, r9.check_sign_readers],
+        "not_decided": "canonical form at every exported boundary (planned R1 typestate); cmp_slice's most-significant-first iteration order; Ord sign table (planned R5)",
+        "level_text": "Decides (release code only, debug assertions excluded): Eq/Ord/Hash of BigInt read sign and magnitude of every operand, of BigUint the digit vector; Hash reads "
+        "only components that Eq compares; cmp_slice consults both lengths and both contents; sign-dependent exporters read the sign.",
+        "technique": "interprocedural field read-set analysis over MIR (necessity rule: a result that depends on a component must read it)",
+    },
+    "C09": {
+        "clauses": [r9.check_iterators, r9.check_sign_readers],
+        "not_decided": "byte regrouping arithmetic, two's-complement byte loops, iterator value sequences beyond the read-set condition; importer normalisation (planned R1)",
+        "level_text": "Decides: every U32Digits cursor method (next, next_back, len, last, count, size_hint) consults all three cursor fields, directly or through the cursor methods "
+        "it calls (the rule that exposed the U32Digits::last defect); U64Digits methods delegate to the slice iterator; signed-byte exporters read the sign.",
+        "technique": "interprocedural field read-set analysis over MIR (necessity rule)",
     },
     "C10": {
         "clauses": [_c10_forwarders, _c10_signed, _c10_folds],
